@@ -35,7 +35,7 @@ class Sched:
         self.taken = []
         self.eager = set()
         self.ctl = None
-        self.waited = False
+        self.waits = 0
 
     def sym(self, pr):
         role = pr.role.split(":")[-1]
@@ -55,15 +55,18 @@ class Sched:
             if cands:
                 self.order.pop(0)
                 self.taken.append(s)
-                self.waited = False
+                self.waits = 0
                 return cands[0]
-            if s == "D" and self.ctl is not None and not self.waited:
-                d = self.ctl.send_proc()
-                if d is not None and d.state == "parked" and d.dirty:
-                    self.waited = True
-                    return None               # let the daemon notice what happened (re-poll) before deciding
+            if s == "D" and self.ctl is not None and self.waits < 40:
+                # the daemon cannot be granted a point right now - but it may only be waiting for something that is still on its
+                # way: its own re-poll, or an answer of qmail-clean (which removes todo/ and intd/ entries on its behalf) that is
+                # parked with input pending.  Let those move before deciding that the daemon's turn is skipped; otherwise every
+                # placement of the injector's steps behind the first message of a scan collapses into one effective order.
+                if any(p.state == "parked" and p.dirty for p in self.ctl.procs.values()):
+                    self.waits += 1
+                    return None
             self.order.pop(0)                 # that process cannot move now
-            self.waited = False
+            self.waits = 0
         pr = wanting[0]
         self.taken.append(self.sym(pr).lower())
         return pr
